@@ -331,6 +331,89 @@ Example C02_builder_example : wt_prog ex2_tys ex2_prog = true /\
     guard_b (c_vports E0 E0 e0) (c_sports E0 E0 e0) (c_has_order E0 E0 e0) (bview (op E0) (conc E0 ex_tyc 7%N) ex_pc st) = true.
 Proof. exact ex2_end_to_end. Qed.
 
+(* ---- histories, composed.  (a) over C05's concrete operations at any nesting depth n: Hugr(o), then any list of
+   public mutator calls; premises on the calls only (hist_ok, hist_on_ports as above; every operation handed to Hugr /
+   add_node / add_const / insert_hugr inside C05's domain: cop_ok_b = op_ok and tag_ok). ---- *)
+From HV Require proofs.ComposeHistP proofs.ComposeHistOpsP proofs.ComposeReplayP proofs.ComposeBuilderHistP.
+Import proofs.ComposeHistP proofs.ComposeHistOpsP.
+Theorem C02_history_roundtrip_concrete_ops :
+  forall (md : Type) (md_nil : md) (md_is_nil : md -> bool),
+    md_is_nil md_nil = true -> (forall m, md_is_nil m = true -> m = md_nil) ->
+  forall (n : nat) (o : op (HT md n)) (m : md) (cs : list (hcmd (op (HT md n)) md)),
+    hist_ok (init o m) cs = true ->
+    hist_on_ports (vportsT md md_is_nil n) (sportsT md md_is_nil n) (has_orderT md md_is_nil n) (init o m) cs = true ->
+    cop_ok_b (HT md n) (okT md md_is_nil n) o = true ->
+    Forall (cmd_ops (fun o' => cop_ok_b (HT md n) (okT md md_is_nil n) o' = true)) cs ->
+    all_return (init o m) cs = true /\
+    exists s h', SerialHugr.to_serial (c_enc (HT md n) (ST md n) (encT md md_is_nil n)) (c_ndp (HT md n)) md_is_nil (view (hrun (init o m) cs)) = Some s /\
+                 SerialHugr.from_serial (c_dec (HT md n) (ST md n) (decT md md_nil n)) (c_ndp (HT md n)) md_nil s = Some h' /\
+                 SerialHugr.to_serial (c_enc (HT md n) (ST md n) (encT md md_is_nil n)) (c_ndp (HT md n)) md_is_nil h' = Some s /\
+                 Iso (c_enc (HT md n) (ST md n) (encT md md_is_nil n)) (view (hrun (init o m) cs)) h'.
+Proof. exact history_roundtrip_concrete. Qed.
+
+(* (b) the guard is an invariant of such histories from ANY state of the store model that satisfies C04's invariant
+   and whose view is inside the guard -- not only from Hugr(root_op) *)
+Theorem C02_history_guard_from_any_state :
+  forall (Op Meta : Type) (vports sports : Op -> dir -> nat) (has_order : Op -> bool)
+         (h0 : Graph.hugr Op Meta) (cs : list (hcmd Op Meta)),
+    Inv h0 -> guard_b vports sports has_order (view h0) = true ->
+    hist_ok h0 cs = true -> hist_on_ports vports sports has_order h0 cs = true ->
+    all_return h0 cs = true /\ Inv (hrun h0 cs) /\ guard_b vports sports has_order (view (hrun h0 cs)) = true.
+Proof. exact (@hrun_guard). Qed.
+
+(* (c) C01 o C04 o C02: "all HUGRs reachable by builder programs followed by arbitrary add/delete/insert mutation
+   histories".  replay vop vid st is the state of the C04 store model reached by Hugr(root_op), add_node for every
+   further node of the builder's store st in index order and add_link for every link in order; it satisfies C04's
+   invariant, has no freed index pending, and its public view IS the builder's view (recorded port counts: pc_of).
+   From there: any history without index reuse whose link calls name ports the operations have. *)
+Import proofs.ComposeReplayP proofs.ComposeBuilderHistP.
+Theorem C02_builder_store_is_reachable : forall (A : Type) (f : vop -> A) st,
+  BuilderP.Inv st ->
+  Inv (replay A f st) /\ free (replay A f st) = [] /\ view (replay A f st) = bview A f (pc_of A (replay A f st)) st.
+Proof. exact replay_view. Qed.
+Theorem C02_builder_then_history_roundtrip : forall tys p st (cs : list (hcmd vop unit)),
+  wt_prog tys p = true -> exec_prog tys p = Builder.Ok st ->
+  (Inv (replay vop vid st) /\ free (replay vop vid st) = [] /\
+   view (replay vop vid st) = bview vop vid (pc_of vop (replay vop vid st)) st) /\
+  (hist_ok (replay vop vid st) cs = true -> hist_on_ports v_vports v_sports v_has_order (replay vop vid st) cs = true ->
+   all_return (replay vop vid st) cs = true /\
+   exists s h', SerialHugr.to_serial vid v_ndp unit_is_nil (view (hrun (replay vop vid st) cs)) = Some s /\
+                SerialHugr.from_serial vid v_ndp tt s = Some h' /\ SerialHugr.to_serial vid v_ndp unit_is_nil h' = Some s /\
+                Iso vid (view (hrun (replay vop vid st) cs)) h').
+Proof. exact builder_then_history_total. Qed.
+(* the syntactic form of the no-reuse premise after a builder program *)
+Theorem C02_builder_then_history_no_add_after_delete : forall tys p st (cs : list (hcmd vop unit)),
+  exec_prog tys p = Builder.Ok st ->
+  hist_in_guard (replay vop vid st) cs = true -> no_add_after_delete cs = true -> hist_ok (replay vop vid st) cs = true.
+Proof. exact builder_then_history_syntactic. Qed.
+(* ... and through C05's concrete codec for any concretisation of the builder's operation literals *)
+Theorem C02_builder_then_history_roundtrip_concrete_ops : forall tyc nm tys p st (cs : list (hcmd (op E0) unit)),
+  wt_prog tys p = true -> exec_prog tys p = Builder.Ok st -> ConstsOK E0 tyc nm e0_ok st ->
+  (Inv (replay (op E0) (conc E0 tyc nm) st) /\ free (replay (op E0) (conc E0 tyc nm) st) = [] /\
+   view (replay (op E0) (conc E0 tyc nm) st) =
+     bview (op E0) (conc E0 tyc nm) (pc_of (op E0) (replay (op E0) (conc E0 tyc nm) st)) st) /\
+  (hist_ok (replay (op E0) (conc E0 tyc nm) st) cs = true ->
+   hist_on_ports (c_vports E0 E0 e0) (c_sports E0 E0 e0) (c_has_order E0 E0 e0) (replay (op E0) (conc E0 tyc nm) st) cs = true ->
+   Forall (cmd_ops OK0) cs ->
+   all_return (replay (op E0) (conc E0 tyc nm) st) cs = true /\
+   exists s h', SerialHugr.to_serial (c_enc E0 E0 e0) (c_ndp E0) unit_is_nil (view (hrun (replay (op E0) (conc E0 tyc nm) st) cs)) = Some s /\
+                SerialHugr.from_serial (c_dec E0 E0 e0) (c_ndp E0) tt s = Some h' /\
+                SerialHugr.to_serial (c_enc E0 E0 e0) (c_ndp E0) unit_is_nil h' = Some s /\
+                Iso (c_enc E0 E0 e0) (view (hrun (replay (op E0) (conc E0 tyc nm) st) cs)) h').
+Proof. exact builder_then_history_concrete_total. Qed.
+(* non-vacuity: the 13-node program, then add a leaf under the nested DFG, link, order link, metadata, delete the link, add
+   it again, delete the node *)
+Example C02_builder_then_history_example :
+  wt_prog ex2_tys ex2_prog = true /\
+  exec_prog ex2_tys ex2_prog = Builder.Ok BuilderHistWitness.st /\
+  hist_ok BuilderHistWitness.h0 BuilderHistWitness.cs = true /\
+  hist_on_ports v_vports v_sports v_has_order BuilderHistWitness.h0 BuilderHistWitness.cs = true /\
+  no_add_after_delete BuilderHistWitness.cs = true /\
+  length (h_nodes (view (hrun BuilderHistWitness.h0 BuilderHistWitness.cs))) = 14 /\
+  is_live (view (hrun BuilderHistWitness.h0 BuilderHistWitness.cs)) 13 = false /\
+  length (h_links (view BuilderHistWitness.h0)) = length (h_links (view (hrun BuilderHistWitness.h0 BuilderHistWitness.cs))).
+Proof. exact builder_history_example. Qed.
+
 Print Assumptions C02_concrete_ops_hypotheses_discharged.
 Print Assumptions C02_roundtrip_concrete_ops.
 Print Assumptions C02_roundtrip_concrete_ops_any_depth.
@@ -343,3 +426,10 @@ Print Assumptions C02_builder_programs_roundtrip.
 Print Assumptions C02_builder_programs_roundtrip_concrete_ops.
 Print Assumptions C02_builder_documents_wire_format.
 Print Assumptions C02_builder_example.
+Print Assumptions C02_history_roundtrip_concrete_ops.
+Print Assumptions C02_history_guard_from_any_state.
+Print Assumptions C02_builder_store_is_reachable.
+Print Assumptions C02_builder_then_history_roundtrip.
+Print Assumptions C02_builder_then_history_no_add_after_delete.
+Print Assumptions C02_builder_then_history_roundtrip_concrete_ops.
+Print Assumptions C02_builder_then_history_example.
